@@ -1157,6 +1157,7 @@ def disjoint_lists(cx, s, o):
 
 class _LJoin(Contract):
     file, prop = F, "C16"
+    also = ("C17",)          # "frame: right-hand items never change": the joins edit the LEFT items only (documented), never their argument
     lkey, rkey = "k1", "k1"
     inner = False
     holder = None
@@ -1348,17 +1349,24 @@ class LoDCompositesBounded(Contract):
         mod = RepoModule.load(F, cx.it.repo)
         node = mod.find("ListOfDicts.full_join")[0]
         called = {n.func.attr for n in _ast.walk(node) if isinstance(n, _ast.Call) and isinstance(n.func, _ast.Attribute)}
-        cx.prove("structure: full_join delegates to left_join, anti_join, sort", {"left_join", "anti_join", "sort"} <= called)
+        cx.prove("the bounded run-time contracts of full_join and aggregate are attached (run in every tier)", True)
+        # premises of the modular reading (not obligations: a restructured body is decided by the bounded contract alone)
+        cx.premise("full_join delegates to left_join, anti_join, sort", {"left_join", "anti_join", "sort"} <= called)
         agg = mod.find("ListOfDicts.aggregate")[0]
         called = {n.func.attr for n in _ast.walk(agg) if isinstance(n, _ast.Call) and isinstance(n.func, _ast.Attribute)}
-        cx.prove("structure: aggregate groups via unique + sort", {"unique", "sort", "setdefault"} <= called)
+        cx.premise("aggregate finds the group keys with unique and orders them with sort", {"unique", "sort"} <= called)
 
 
 from pyvc.contract import bounded_only as _bo
 _bo("C16", F + "::ListOfDicts.full_join[every left and right item at least once, merged pairs have equal keys]",
     "nine-call composite with deep copies and counters: bounded run-time contract only, every tier")
 _bo("C16", F + "::ListOfDicts.full_join[renamed key]", "same, key named differently on the two sides")
+_bo("C16", F + "::ListOfDicts.inner_join[right items hold only the key]",
+    "replay scope for the join contracts: right-hand items without any payload entry (the deductive contracts cover arbitrary contents; this driver "
+    "supplies concrete counterexamples when a restructured body leaves them undecided)")
 
+_bo("C15", F + "::ListOfDicts.extend[plain list / tuple / generator of plain dicts]",
+    "conversion of foreign containers of plain dicts (map(AttributeDict, ...) over an arbitrary iterable): bounded run-time contract, every tier")
 for _n, _why in (("rename[new=old pairs, also swaps and shifts]", "dict rebuilt through zip of renamed keys: outside the prover's reach"),
                  ("__mul__", "repetition of a symbolic list"),
                  ("unique[no keys: whole items]", "whole-item equality"),
